@@ -37,7 +37,7 @@ typedef struct {
     uint8_t  expect_p1[MAX_DGRAMS];      /* 1 + number of output units (frames) this datagram must produce; 0: not judged */
 } seq_t;
 
-enum { EX_OK = 0, EX_HANG = 77, EX_SENTINEL = 78, EX_LOOP = 79, EX_HARNESS = 80, EX_REPLAYED = 81, EX_STACK = 82, EX_LOST = 83 };
+enum { EX_OK = 0, EX_HANG = 77, EX_SENTINEL = 78, EX_LOOP = 79, EX_HARNESS = 80, EX_REPLAYED = 81, EX_STACK = 82, EX_LOST = 83, EX_TERMINATED = 84 };
 
 /* ---- state shared with the wrapped recv()/write() */
 static const seq_t* g_seq;
